@@ -11,6 +11,7 @@ import math
 import numpy as np
 
 import impl
+import physical
 import statics
 from dump import mesh_json, rat, unrat
 
@@ -189,7 +190,7 @@ def run_case(ck, case, reqs, pending):
                 if dev > tol:
                     ck.fail("coefficient pair = unit tangent of the interface's circle/line at the junction, pointing along it; zero elsewhere",
                             f"junction {v}, unknown {col} ({pts} points): got {got[:, col].tolist()} want {expect[:, col].tolist()}",
-                            case, signature=SIG_D2 if col in flagged else None)
+                            case, signature=SIG_D2 if col in flagged else (physical.SIG_FIT if col in physical.unconverged_fits(frame, used, fit) else None))
                     if col in flagged:
                         ck.count("d2_mirrored_coefficients")
     ck.count("coeff_checked", len(rowmap) * len(used))
